@@ -140,12 +140,17 @@ struct GenOpts
   bool allow_console = true;
 };
 
+// set by properties whose buffers are large and sanitizer slow-down high (atom-less
+// generated regexps then take minutes); the regexp engine is still exercised by
+// their fixed rules
+static bool g_gen_no_regexp = false;
+
 static GStr gen_gstr(Src& s, GSet& gs, const std::string& id)
 {
   GStr g;
   g.id = id;
   const bytes& mat = gs.pool[s.range(0, gs.pool.size() - 1)];
-  g.kind = (int) s.weighted({50, 25, 25});
+  g.kind = (int) s.weighted({50, 25, g_gen_no_regexp ? 0 : 25});
   if (g.kind == 0)
   {
     g.t = gen_text_string(s, true);
